@@ -419,15 +419,21 @@ def _run_lqgen(case, ctx):
         exc = rng.choice([8, 9, 12, 15, 31, 63, 255, 255, 1023, 65535])
         r["range"] = [0, exc, (exc + 1) // 2, exc]
         if rng.random() < 0.6:
-            lo = rng.choice([0, 0, 1, 2, 4])
+            lo = rng.choice([0, 0, 1, 2, 4, 4, 120, 244, 247, 249, 250])
             r["qm"] = {"0": {"LL": lo + rng.randrange(0, 3)}}
             for l in range(1, d + 1):
                 r["qm"][str(l)] = {"HL": lo + rng.randrange(0, 5), "LH": lo + rng.randrange(0, 5), "HH": lo + rng.randrange(0, 7)}
         else:
             r["qm"] = None
         cf = configs.build_cf(r)
-        stream = lossless_quantization(cf)
         key = jsonx.key_hash(["lqgen", r])
+        try:
+            stream = lossless_quantization(cf)
+        except Exception as e:
+            # no test case was produced (e.g. the qindex needed does not fit its field): nothing to judge here
+            ctx.count("lqgen_raised:" + type(e).__name__)
+            ctx.seen(key, nontrivial=False)
+            continue
         if stream is None:
             ctx.count("lqgen_omitted")
             ctx.seen(key, nontrivial=False)
